@@ -21,9 +21,18 @@ pub enum Loaded {
     None,
 }
 
+/// File names travel as strings in a trace; `hex:<bytes>` stands for a name whose bytes are not UTF-8.
+fn path_of(name: &str) -> std::path::PathBuf {
+    use std::os::unix::ffi::OsStringExt;
+    match name.strip_prefix("hex:") {
+        Some(h) => std::path::PathBuf::from(std::ffi::OsString::from_vec(from_hex(h))),
+        None => std::path::PathBuf::from(name),
+    }
+}
+
 pub fn call_entry(entry: &str, name: &str, bytes: &[u8]) -> Loaded {
     match entry {
-        "Buffer::from_bytes" => match Buffer::from_bytes(Path::new(name), true, bytes) {
+        "Buffer::from_bytes" => match Buffer::from_bytes(&path_of(name), true, bytes) {
             Ok(b) => Loaded::Buffer(Box::new(b)),
             Err(e) => Loaded::Err(e.to_string()),
         },
